@@ -4,14 +4,14 @@ CONSTANTS NA = 2
           Ripemd = 2
           MaxVal = 1
           MaxBal = 1
-          MaxNonce = 1
+          MaxNonce = 0
           MaxCode = 0
           MaxSnap = 1
-          MaxTx = 2
+          MaxTx = 1
           MaxLogs = 0
           MaxRefund = 0
-          Ops = {"BeginTx", "AddBalance", "SubBalance", "SetNonce", "SetState", "SelfDestruct", "CreateAccount", "EvmCreate", "Snapshot", "Revert", "Finalise"}
-          RuleNames = {"pre158", "eip158", "cancun", "amsterdam"}
+          Ops = {"BeginTx", "AddBalance", "SubBalance", "SelfDestruct", "CreateAccount", "Snapshot", "Revert", "Finalise"}
+          RuleNames = {"pre158", "eip158", "amsterdam"}
           BaseKinds = {0, 1, 2}
           KeepHist = FALSE
           HistLen = 0
